@@ -126,4 +126,105 @@ theorem authLines_one_command (mech login password authz : Bytes) :
       · simp [isAuthCmd_commandBytes]
       · simp [isAuthCmd_commandBytes]
 
+/-! ## the complete write log of `connect` -/
+
+/-- the authentication step in the existential form used below -/
+theorem authenticate_writes_ex (c : Client) (login password authz : Bytes) (authmech : Option Bytes) (hc : c.connected = true) :
+    ∃ auth : List Bytes, (authenticate c login password authz authmech).2.writes = c.writes ++ auth.map (fun b => (c.tls, b)) ∧
+      (auth = [] ∨ ∃ mech, auth = authLines mech login password authz) := by
+  have h := authenticate_writes c login password authz authmech hc
+  cases hs : capGet c (sb "SASL") with
+  | none => rw [hs] at h; exact ⟨[], by simpa using h, .inl rfl⟩
+  | some v =>
+    rw [hs] at h
+    simp only at h
+    cases hm : selectMech authmech (splitWs (v.getD [])) with
+    | none => rw [hm] at h; exact ⟨[], by simpa using h, .inl rfl⟩
+    | some m => rw [hm] at h; exact ⟨_, h, .inr ⟨m, rfl⟩⟩
+
+theorem starttls_connected (c : Client) (env : ConnEnv) : (starttls c env).2.connected = c.connected := by
+  unfold starttls
+  split
+  · rfl
+  · have k := sendCommand_keeps c (sb "STARTTLS") [] [] none
+    revert k
+    cases sendCommand c (sb "STARTTLS") [] [] none with
+    | mk v c1 =>
+      intro k
+      cases v with
+      | error e => exact k.conn
+      | ok rep =>
+        simp only
+        split
+        · exact k.conn
+        · split
+          · exact k.conn
+          · have g := getCapabilities_keeps (tlsWrapped c1)
+            revert g
+            cases getCapabilities (tlsWrapped c1) with
+            | mk v3 c3 =>
+              intro g
+              have : c3.connected = c.connected := by rw [g.1.conn]; exact k.conn
+              cases v3 <;> exact this
+
+/-- **everything `connect` writes**: at most one STARTTLS line in plaintext (only when TLS was asked for), then nothing or
+    the lines of ONE mechanism's exchange — and those on the secured channel whenever TLS was asked for -/
+theorem connect_write_log (c : Client) (env : ConnEnv) (net : Net) (l p z : Bytes) (useTls : Bool) (m : Option Bytes) :
+    ∃ (pre : List (Bool × Bytes)) (auth : List Bytes),
+      (connect c env net l p z useTls m).2.writes = pre ++ auth.map (fun b => (useTls, b)) ∧
+      (pre = [] ∨ (useTls = true ∧ pre = [(false, commandBytes (sb "STARTTLS") [])])) ∧
+      (auth = [] ∨ ∃ mech, auth = authLines mech l p z) := by
+  unfold connect
+  split
+  · exact ⟨[], [], by simp, .inl rfl, .inl rfl⟩
+  · have g := getCapabilities_keeps (freshConn c net)
+    revert g
+    cases getCapabilities (freshConn c net) with
+    | mk v2 c2 =>
+      intro g
+      have h2w : c2.writes = [] := by rw [g.2]; rfl
+      have h2t : c2.tls = false := by rw [g.1.tls]; rfl
+      have h2c : c2.connected = true := by rw [g.1.conn]; rfl
+      cases v2 with
+      | error e => exact ⟨[], [], by simp [h2w], .inl rfl, .inl rfl⟩
+      | ok b =>
+        cases b with
+        | false => exact ⟨[], [], by simp [h2w], .inl rfl, .inl rfl⟩
+        | true =>
+          simp only
+          cases useTls with
+          | false =>
+            simp only [maybeTls, Bool.false_eq_true, if_false]
+            obtain ⟨auth, hw, ha⟩ := authenticate_writes_ex c2 l p z m h2c
+            exact ⟨[], auth, by rw [hw, h2w, h2t], .inl rfl, ha⟩
+          | true =>
+            simp only [maybeTls, if_true]
+            obtain ⟨_, s2, s3⟩ := starttls_spec c2 env
+            have sc := starttls_connected c2 env
+            revert s2 s3 sc
+            cases starttls c2 env with
+            | mk v3 c3 =>
+              intro s2 s3 sc
+              simp only at s2 s3 sc
+              have hpre : c3.writes = [] ∨ c3.writes = [(false, commandBytes (sb "STARTTLS") [])] := by
+                rcases s2 with s2 | s2
+                · left; rw [s2, h2w]
+                · right; rw [s2, h2w, h2t]; rfl
+              have hfin : ∃ pre : List (Bool × Bytes), c3.writes = pre ∧
+                  (pre = [] ∨ (True ∧ pre = [(false, commandBytes (sb "STARTTLS") [])])) := by
+                rcases hpre with h | h
+                · exact ⟨[], h, .inl rfl⟩
+                · exact ⟨_, h, .inr ⟨trivial, rfl⟩⟩
+              obtain ⟨pre, hp1, hp2⟩ := hfin
+              cases v3 with
+              | error e => exact ⟨pre, [], by simp [hp1], hp2, .inl rfl⟩
+              | ok b3 =>
+                cases b3 with
+                | false => exact ⟨pre, [], by simp [hp1], hp2, .inl rfl⟩
+                | true =>
+                  simp only
+                  obtain ⟨htls, _⟩ := s3 rfl
+                  obtain ⟨auth, hw, ha⟩ := authenticate_writes_ex c3 l p z m (by rw [sc]; exact h2c)
+                  exact ⟨pre, auth, by rw [hw, hp1, htls], hp2, ha⟩
+
 end Client
